@@ -136,4 +136,34 @@ theorem stripChars_digits (s : Str) (h : ∀ c ∈ s, c.isDigit = true) (hne : s
         rw [← hr]; simp
     exact hlast (c :: cs) (by simp) h
 
+/-! ### the scanning loop on plain text (no `.` and no bracket) -/
+
+def plainChar (c : Char) : Bool :=
+  !(c == '.' || c == '{' || c == '[' || c == '(' || c == ')' || c == ']' || c == '}')
+
+theorem takeDefault_plain (par : Nat) (s : Str) (h : s.all plainChar = true) : takeDefault par s = s := by
+  induction s generalizing par with
+  | nil => rfl
+  | cons c cs ih =>
+    simp only [List.all_cons, Bool.and_eq_true] at h
+    have hc := h.1
+    unfold plainChar at hc
+    simp only [Bool.not_eq_true', Bool.or_eq_false_iff] at hc
+    obtain ⟨⟨⟨⟨⟨⟨h1, h2⟩, h3⟩, h4⟩, h5⟩, h6⟩, h7⟩ := hc
+    simp only [takeDefault, h1, Bool.false_and, Bool.false_eq_true, if_false, h2, h3, h4, h5, h6, h7, Bool.or_self]
+    rw [ih par h.2]
+
+/-- `split(".")` of a text without a dot is the text itself -/
+theorem split1_no_sep (s acc : Str) (c : Char) (h : c ∉ s) : splitOn1 c s acc = [acc.reverse ++ s] := by
+  induction s generalizing acc with
+  | nil => simp [splitOn1]
+  | cons x xs ih =>
+    have hx : (x == c) = false := by
+      cases hb : (x == c) with
+      | false => rfl
+      | true => exact absurd (by simp [(beq_iff_eq.mp hb)]) h
+    have hxs : c ∉ xs := fun e => h (by simp [e])
+    simp only [splitOn1, hx, Bool.false_eq_true, if_false]
+    rw [ih (x :: acc) hxs]; simp
+
 end Doc
